@@ -107,7 +107,7 @@ def apalache_inductive(spec, timeout=3000):
     """Unbounded safety of a small model: Apalache checks that IndInv is inductive
     (Init => IndInv; IndInit /\ Next => IndInv', IndInit = an arbitrary IndInv state) and that
     IndInv implies Safety. Any failure is a defect of the specification (tool error)."""
-    out_dir = f"{OUT}/apalache"
+    out_dir = f"{OUT}/apalache-{spec}"
     res = []
     for label, args in (("initiation", ["--init=Init", "--inv=IndInv", "--length=0"]),
                         ("consecution", ["--init=IndInit", "--inv=IndInv", "--length=1"]),
@@ -714,6 +714,9 @@ PROPS = {
                   ("Bug_ReaderSplicesFragments", "MC_RainLog.tla", "MC_RainLog_small.cfg", "PrefixSafe"),
                   ("Bug_ReaderStopsAfterPartial", "MC_RainLog.tla", "MC_RainLog_small.cfg", "PrefixSafe")],
         trace=("RainLog_Trace.tla", "RainLog_Trace.cfg"),
+        # unbounded: the writer arithmetic over integers with the real constants, for EVERY record
+        # length and every split across re-openings (inductive invariant, Apalache, ~20 s)
+        apalache_quick=["APA_RainLogPos.tla"],
         work=[dict(driver="logfmt", args=["--mode", "boundary", "--parts", "9"], quick=18, thorough=162),
               dict(driver="logfmt", args=["--mode", "model", "--maxrecs", "2", "--parts", "8"], quick=18, thorough=144),
               dict(driver="logfmt", args=["--mode", "random", "--scen", "60"], quick=8, thorough=400),
@@ -790,8 +793,8 @@ def check_prop(prop, tier, seed):
         log(f"[{prop}] switch {sw}: {r['found']} ({r['wall_s']}s)")
 
     inductive = []
-    if tier == "thorough":
-        for spec in conf.get("apalache", []):
+    if True:
+        for spec in (conf.get("apalache", []) if tier == "thorough" else []) + conf.get("apalache_quick", []):
             r = apalache_inductive(spec)
             inductive.append(r)
             log(f"[{prop}] Apalache: IndInv of {spec} is inductive and implies Safety "
